@@ -235,7 +235,7 @@ def read_bias_ratios(eta_string: str) -> list:
         if s == 'inf':
             bias_ratios.append(np.inf)
         elif float(s) % 1 == 0:
-            bias_ratios.append(int(s))
+            bias_ratios.append(int(float(s)))
         else:
             bias_ratios.append(float(s))
     return bias_ratios
